@@ -237,6 +237,21 @@ def audit_sources(files):
     return bad
 
 
+def coqchk_property(pid):
+    """thorough tier: re-check the compiled cone of Properties/<pid>.vo with the independent checker coqchk and
+    require that it reports no axioms, no type-in-type, no unsafe fixpoints, no assumed positivity."""
+    with Lock("coq"):
+        rc, out = sh(["timeout", "1500", "coqchk", "-o", "-silent", "-Q", "theories", "Sml", "Sml.Properties." + pid],
+                     cwd=COQ, timeout=1600)
+    tail = out[-1500:]
+    ok = rc == 0
+    for key in ("Axioms:", "type-in-type:", "unsafe (co)fixpoints:", "positivity is assumed:"):
+        m = re.search(re.escape(key) + r"\s*(\S+)", out)
+        if not m or m.group(1) != "<none>":
+            ok = False
+    return ok, tail
+
+
 def audit_property(pid, theorems):
     """Compile Properties/<pid>.vo (cone), then re-check statements and print assumptions in a
     fresh audit file.  theorems: list of (name, statement-or-None).
